@@ -157,6 +157,22 @@ def c13_4(ctx, r):
                                 f"reset of Job.{t.attr} only for selected names", key_of(pf, f"reset {t.attr} unguarded"), pf.loc(n),
                                 f"Job.{t.attr} is reset for jobs that are not being resubmitted (their recorded outcome is discarded)",
                                 guards=sorted(f for f, p in forms))
+    # the reset visits every job (a selected job may be in any state: a missing job of a killed batch is still 'submitted')
+    rl = [n for n in iter_own(pf.node) if isinstance(n, ast.For) and any(isinstance(x, ast.Assign) and any(isinstance(t, ast.Attribute) and t.attr == "state" for t in x.targets) for x in ast.walk(n))]
+    if len(rl) != 1:
+        raise AnalysisError("C13.4", f"expected one reset loop in {pf.short}, found {len(rl)}")
+    it = rl[0].iter
+    site = ctx.cg.site_of(pf, it) if isinstance(it, ast.Call) else None
+    ok_dom = (site is not None and site.calls_short(ctx.ix, "Cluster.iter_jobs") and not it.args and not it.keywords) or render(ctx, pf, it) in ("<JobStatus.jobs>",)
+    r.check(ok_dom, "the state reset visits every job, whatever its state", key_of(pf, "reset loop domain"), pf.loc(rl[0]),
+            f"the reset loop iterates `{ctx.src(it)}`: a selected job that is not in that subset (a missing job of a killed batch is still 'submitted') is never reset and never rerun",
+            "reruns exactly the jobs selected by its flags (failed/canceled, missing, successful)")
+    # completed counter: recounted from jobs that stay DONE
+    cnt = [n for n in ast.walk(rl[0]) if isinstance(n, ast.AugAssign) and ctx.src(n.target).endswith(".completed_jobs")]
+    for n in cnt:
+        for node in ctx.nodes_of(pf, n):
+            forms = guard_forms(ctx, pf, node)
+            r.check(any(p and "JobState.DONE" in f and "state" in f for f, p in forms), "completed_jobs counts jobs that stay DONE", key_of(pf, "completed recount"), pf.loc(n), f"completed_jobs is recounted under {sorted(f for f, p in forms)}")
     # is_complete asserted then cleared; counters recomputed
     cfg = ctx.cfg(pf)
     for node in cfg.nodes:
@@ -211,6 +227,26 @@ def c13_5(ctx, r):
                     f"jobs are added to the rerun set under {sorted(forms)}")
     if not adds:
         r.bad(key_of(fn, "closure never adds"), fn.loc(lp), "the closure loop never adds dependents to jobs_to_resubmit")
+    # the blockers handed to the state reset are the original blockers restricted to the rerun set
+    stores = [n for n in ast.walk(lp) if isinstance(n, ast.Assign) and isinstance(n.targets[0], ast.Subscript) and ctx.src(n.targets[0].value) == "updated_blocking_jobs_by_name"]
+    if not stores:
+        r.bad(key_of(fn, "no restricted blockers"), fn.loc(lp), "the closure no longer records the restricted blocker sets of rerun dependents")
+    for st in stores:
+        v = st.value
+        okv = False
+        for node in ctx.nodes_of(fn, st):
+            e = ctx.guards(fn).expand(v, node) if isinstance(v, ast.Name) else v
+            txt = ctx.src(e).replace(" ", "")
+            okv = txt in ("blocking_jobs.intersection(jobs_to_resubmit)", "jobs_to_resubmit.intersection(blocking_jobs)", "blocking_jobs&jobs_to_resubmit", "jobs_to_resubmit&blocking_jobs",
+                          "job.get_blocking_jobs().intersection(jobs_to_resubmit)")
+        r.check(okv, "remaining blockers of a rerun dependent = its blockers restricted to the rerun set", key_of(fn, "restricted blockers"), fn.loc(st),
+                f"`{ctx.src(st)}`: a rerun dependent keeps blockers that are not rerun; those are already done, never complete again, so the dependent stays blocked for ever and ends up missing",
+                "each once and in dependency order ... afterwards the results again hold one entry per job")
+        r.check(ctx.src(st.targets[0].slice) == "job.name", "stored under the dependent's name", key_of(fn, "restricted blockers key"), fn.loc(st), f"stored under {ctx.src(st.targets[0].slice)}")
+    # prepare_for_resubmission reads that mapping for the job being reset
+    pfn = ctx.ix.try_func("Cluster._prepare_for_resubmission") or ctx.fn("Cluster.prepare_for_resubmission", "C13.5")
+    okr = any(isinstance(n, ast.Assign) and ctx.src(n.targets[0]).endswith(".blocked_by") and ctx.src(n.value).replace(" ", "") == "updated_blocking_jobs_by_name.get(job.name,set())" for n in iter_own(pfn.node))
+    r.check(okr, "the reset job's remaining blockers come from that mapping (empty if absent)", key_of(pfn, "blocked_by from mapping"), pfn.loc(), "prepare_for_resubmission no longer sets blocked_by from updated_blocking_jobs_by_name.get(job.name, set())")
 
 
 @rule(P, "C13.6", "T8", "resubmission loads the submitter as an existing submission (setup is not rerun)", min_obligations=2)
